@@ -813,7 +813,7 @@ def rule_crypto_reassembly(tree: Tree) -> RuleResult:
     hb = tree.func("quic.quic_tls_parser", "QuicTlsSession.handle_buffer")
     r.instances += 1
     txt = src(hb.node, 4000)
-    ok = "record_len = int.from_bytes(buffer[1:4], 'big', signed=False)" in txt and "if len(buffer) < 4 + record_len:" in txt and "self.handle_record(buffer[0], buffer[:4 + record_len])" in txt \
+    ok = "record_len = int.from_bytes(buffer[1:4], 'big')" in txt and "if len(buffer) < 4 + record_len:" in txt and "self.handle_record(buffer[0], buffer[:4 + record_len])" in txt \
         and "buffer = buffer[4 + record_len:]" in txt and "if len(buffer) <= 4:" in txt
     r.ob(ok, Finding("CRY", "quic.quic_tls_parser:QuicTlsSession.handle_buffer:framing", "handshake messages are framed as type(1) length(3) body; a message is handed on only when complete and then removed from the buffer", hb.module.line(hb.node)))
     return r
